@@ -132,7 +132,11 @@ reftable_new_writer(ssize_t (*writer_func)(void *, const void *, size_t),
 		abort();
 	}
 	wp->last_key = reftable_empty_strbuf;
-	wp->block = reftable_calloc(opts->block_size);
+	/* A log block that deflate cannot shrink grows by the zlib header and
+	   trailer and 5 bytes per stored block; block_writer_finish()
+	   compresses in place. */
+	wp->block = reftable_calloc(opts->block_size + 16 +
+				    5 * (opts->block_size / 16384));
 	wp->write = writer_func;
 	wp->write_arg = writer_arg;
 	wp->opts = *opts;
